@@ -183,7 +183,7 @@ func (pe *pairEnv) replay(bh PBehaviour, id string) bool {
 		switch st.Op {
 		case "a.skip", "b.skip", "t.skip":
 			continue
-		case "a.add", "a.neg", "a.mul", "b.add", "b.neg", "b.mul":
+		case "a.add", "a.neg", "a.sub", "a.mul", "b.add", "b.neg", "b.sub", "b.mul":
 			env, R := pe.e1, A
 			if st.Op[0] == 'b' {
 				env, R = pe.e2, B
@@ -202,6 +202,8 @@ func (pe *pairEnv) replay(bh PBehaviour, id string) bool {
 					R[st.D].Add(R[st.X], R[st.Y])
 				case "neg":
 					R[st.D].Neg(R[st.X])
+				case "sub":
+					R[st.D].Sub(R[st.X], R[st.Y])
 				case "mul":
 					if st.Y == "nil" {
 						R[st.D].Mul(S[st.X], nil)
@@ -214,7 +216,7 @@ func (pe *pairEnv) replay(bh PBehaviour, id string) bool {
 				pe.res.Violate(pe.vkey(st.Op, "panic"), fmt.Sprintf("%s panicked on suite %s: %s", st.Op, pe.key, msg), detail(idx, map[string]any{"stack": stack}))
 				return false
 			}
-		case "pair", "t.mul", "t.add", "t.neg":
+		case "pair", "t.mul", "t.add", "t.sub", "t.neg":
 			var av APoint
 			_ = json.Unmarshal(st.V, &av)
 			want, ok = pe.canonGT(av)
@@ -232,6 +234,8 @@ func (pe *pairEnv) replay(bh PBehaviour, id string) bool {
 					T[st.D].Mul(S[st.X], T[st.Y])
 				case "t.add":
 					T[st.D].Add(T[st.X], T[st.Y])
+				case "t.sub":
+					T[st.D].Sub(T[st.X], T[st.Y])
 				case "t.neg":
 					T[st.D].Neg(T[st.X])
 				}
